@@ -157,3 +157,73 @@ func Verif_C13_GetOverride() {
 }
 
 func fsMode(u uint32) fs.FileMode { return fs.FileMode(u) }
+
+// Verif_C13_EveryField: for EVERY string, []string and bool leaf of
+// Overridables (the list is generated from /repo's nfpm.go on each run) and
+// every format: with the field set in the base and in the override block of
+// format F, Get(F) yields the override value if it is non-empty and the base
+// value otherwise; Get of another format yields the base value; the
+// configuration is unchanged.
+func Verif_C13_EveryField() {
+	formats := []string{"deb", "rpm", "apk", "archlinux", "ipk"}
+	lf := verifOvLeaves[v.NondetChoice("field", len(verifOvLeaves))]
+	fi := v.NondetChoice("format", len(formats))
+	f := formats[fi]
+	g := formats[(fi+1+v.NondetChoice("other", len(formats)-1))%len(formats)]
+	cfg := &Config{}
+	cfg.Name, cfg.Arch, cfg.Version = "n", "amd64", "1.0.0"
+	ov := &Overridables{}
+	bS, oS := verifWord("base.value", 1), v.NondetString("override.value", 1)
+	oSet := v.NondetBool("override.set")
+	switch lf.Kind {
+	case "string":
+		lf.SetS(&cfg.Overridables, bS)
+		lf.SetS(ov, oS)
+	case "[]string":
+		lf.SetL(&cfg.Overridables, []string{bS})
+		if oSet {
+			lf.SetL(ov, []string{oS, "second"})
+		}
+	case "bool":
+		lf.SetB(&cfg.Overridables, v.NondetBool("base.bool"))
+		lf.SetB(ov, oSet)
+	}
+	bB := false
+	if lf.Kind == "bool" {
+		bB = lf.GetB(&cfg.Overridables)
+	}
+	cfg.Overrides = map[string]*Overridables{f: ov}
+	v.Snapshot(cfg, "config")
+	inF, errF := cfg.Get(f)
+	inG, errG := cfg.Get(g)
+	v.Reach("C13.everyfield.ran")
+	v.Assert(errF == nil && errG == nil && inF != nil && inG != nil, "get-succeeds")
+	if errF != nil || errG != nil || inF == nil || inG == nil {
+		return
+	}
+	v.Assert(!v.Changed("config"), "get-does-not-modify-the-configuration")
+	switch lf.Kind {
+	case "string":
+		if oS != "" {
+			v.Assert(lf.GetS(&inF.Overridables) == oS, "every-string-field-overridden-by-a-non-empty-value")
+		} else {
+			v.Assert(lf.GetS(&inF.Overridables) == bS, "every-string-field-keeps-the-base-under-an-empty-override")
+		}
+		v.Assert(lf.GetS(&inG.Overridables) == bS, "every-field-of-another-format-is-the-base")
+	case "[]string":
+		got := lf.GetL(&inF.Overridables)
+		if oSet {
+			v.Assert(verifSame(got, []string{oS, "second"}), "every-list-field-replaced-wholesale")
+		} else {
+			v.Assert(verifSame(got, []string{bS}), "every-list-field-keeps-the-base-under-an-empty-override")
+		}
+		v.Assert(verifSame(lf.GetL(&inG.Overridables), []string{bS}), "every-field-of-another-format-is-the-base")
+	case "bool":
+		if oSet {
+			v.Assert(lf.GetB(&inF.Overridables), "every-bool-field-set-by-a-true-override")
+		} else {
+			v.Assert(lf.GetB(&inF.Overridables) == bB, "every-bool-field-keeps-the-base-under-a-false-override")
+		}
+		v.Assert(lf.GetB(&inG.Overridables) == bB, "every-field-of-another-format-is-the-base")
+	}
+}
